@@ -105,7 +105,7 @@ var (
 	mutIns = effs(EIdxWLive, EIdxWUnk, EPutCache, EPutPend, EPutUnk, EFsWObj)
 	// reject-class error sources (user-caused; the call must leave no trace)
 	rejectSrc = effs(EHookV, EErrUnique, EErrWrongType, EErrInvalid, EErrStructure, EErrFieldDesc, EErrExtension, EErrKeyType, EErrUnkField, EJsonEncObj, EJsonDec)
-	okBits    = effs(EOkValid, EOkUniq, EOkAccept, EOkSchema, EOkObjRead, EOkCompat, EOkStruct, EOkSer, EOkUniqLive, EOkUniqTemp)
+	okBits    = effs(EOkValid, EOkUniq, EOkAccept, EOkSchema, EOkObjRead, EOkCompat, EOkStruct, EOkSer, EOkUniqLive, EOkUniqTemp, EOkAcceptTemp)
 )
 
 // ---- C06 ------------------------------------------------------------------------------
@@ -124,8 +124,30 @@ func checkC06(p *Prog, r *Result, tier string) {
 	exploreAll(p, c, jobsFor(roots, configVals), mask, r, func(j exploreJob) Listener {
 		return &effListener{p: p, r: r, root: j.root, val: j.val, onEvent: c06Event}
 	}, nil)
+	r.Rule("C06.R4", "rollback completeness: on every path of an insertion entry that un-indexes the object again (error recovery), the cache and pending entries are dropped too when caching is on, so that a failed call cannot leave an object that only the cache knows", 0)
+	rb := effs(ECallUnindex, ECallDelCache, ECallDelPend, EPutCache, EPutPend)
+	exploreAll(p, c, jobsFor(roots, configVals), rb, r, func(j exploreJob) Listener {
+		return &effListener{p: p, r: r, root: j.root, val: j.val, onReturn: func(l *effListener, x *Explorer, st *State, ret *ssa.Return, res []Fact) {
+			if !st.may.Has(ECallUnindex) {
+				return
+			}
+			fn := FuncName(l.root)
+			var miss []string
+			if st.may.Has(EPutCache) && !st.must.Has(ECallDelCache) {
+				miss = append(miss, "CALL.del(cache)")
+			}
+			if st.may.Has(EPutPend) && !st.must.Has(ECallDelPend) {
+				miss = append(miss, "CALL.del(pending)")
+			}
+			if len(miss) == 0 {
+				l.ok("C06.R4", fn, "un-indexing rollback also drops cache/pending", l.p.Pos(ret.Pos()))
+			} else {
+				l.bad("C06.R4", fn, "un-indexing rollback also drops cache/pending", "the entry un-indexes the object on an error path but leaves it in the cache/pending store (missing "+strings.Join(miss, ", ")+"): Get would still return the object of the failed call while index and disk agree, so Control stays silent", l.p.Pos(ret.Pos()), x, st, ret)
+			}
+		}}
+	}, nil)
 	r.Rule("C06.R3", "ITER (premise of the vetted batch-protocol exemptions): every iteration of the batch entry's validating loop performs a successful Validate, a successful serialisation check, a successful insertion into the scratch index and a successful uniqueness check against the live index", 1)
-	checkValidateLoops(p, c, r, "C06.R3", effs(EOkValid, EOkUniqLive, EOkUniqTemp))
+	checkValidateLoops(p, c, r, "C06.R3", effs(EOkValid, EOkUniqLive, EOkAcceptTemp))
 }
 
 func c06Event(l *effListener, x *Explorer, st *State, ev *Event) {
@@ -143,7 +165,7 @@ func c06Event(l *effListener, x *Explorer, st *State, ev *Event) {
 		switch {
 		case prior.Empty():
 			l.ok("C06.R1", fn, construct, where)
-		case ev.Eff == EErrUnique && st.must.Has(EOkUniqLive) && st.must.Has(EOkUniqTemp):
+		case ev.Eff == EErrUnique && st.must.Has(EOkUniqLive) && st.must.Has(EOkAcceptTemp):
 			l.note("C06.R1", fn, construct, "vetted infeasible (batch protocol): this element already passed a uniqueness check against the live index and an insertion into the per-batch scratch index (both on this path; C06.R3 shows every element does); a conflict with the pre-state or with an earlier element of the batch would have been reported there", where)
 		case ev.Eff == EJsonEncObj && st.must.Has(EOkSer):
 			l.note("C06.R1", fn, construct, "vetted infeasible: the same object was already serialised successfully on this path before any mutation (ok(SERIALISE))", where)
